@@ -330,6 +330,25 @@ pub fn gen(prop: &str, tier: &str, seed: u64) -> Out {
                 for x in faults(&mut r, &b, 12) { o.push(format!("dec {}", hex(&x))); o.stat("fault:mutated"); }
                 for x in layout_faults(&mut r, &b, 6) { o.push(format!("dec {}", hex(&x))); o.stat("fault:layout"); }
             }
+            // text fallback: JSON text (not starting with a space) through from_slice, with the
+            // intended value; scalars whose bytes 4..8 look like an entry word included
+            for _ in 0..scale(tier, 400, 12000) {
+                let v = if r.chance(1, 3) { gen_scalar(&mut r, &c) } else { gen_value(&mut r, &c, 0) };
+                if crate::gen_text::has_nan(&v) { continue; }
+                let want = show_value(&crate::gen_text::denoted(&v));
+                for st in [crate::gen_text::Style::Strict, crate::gen_text::Style::Lenient] {
+                    let mut t = String::new();
+                    crate::gen_text::render_json(&mut r, &v, st, &mut t);
+                    let t = t.trim_start_matches(' ');
+                    o.push(format!("fsexpect {} {}", hex(t.as_bytes()), want));
+                    o.push(format!("t:fromslice {}", hex(t.as_bytes())));
+                    o.stat("text-fallback");
+                }
+            }
+            for t in ["12345678", "3.14159265", "-1234567", "\"NoOKay\"", "\"abc0xy\"", "[12]", "[1,2]", "{\"a\":1}", "1234", "12340000", "\"\\u0041bc@@@@\"", "1e5", "true", "null", "\t1", "\n[1]", "[[[[1]]]]", "{}", "[]", "0"] {
+                let pv = jsonb::parse_value(t.as_bytes()).unwrap();
+                o.push(format!("fsexpect {} {}", hex(t.as_bytes()), show_value(&pv)));
+            }
             // flat documents of numbers and of multi-byte keys: every entry resized / key boundaries moved
             for _ in 0..scale(tier, 150, 4000) {
                 let v = if r.chance(1, 2) {
